@@ -6,10 +6,11 @@ cd "$(dirname "$0")"
 export GOFLAGS=-mod=mod GOPROXY=off GOSUMDB=off GOTOOLCHAIN=local
 S=$(mktemp -d /tmp/vsetup.XXXXXX); trap 'rm -rf "$S"' EXIT
 go build -o "$S/vcheck" ./cmd/vcheck
+GOARCH=386 go build -o "$S/vcheck386" ./cmd/vcheck   # the 32-bit second pass of the engine-C checks
 go build -o "$S/instr" ./cmd/instr
-"$S/instr" -repo /repo -out "$S/ov" -pkgs rtcm/handler,rtcm/pushback,file_handler,apps/appcore,apps/proxy/circular_queue -time file_handler -yield apps/proxy/circular_queue 2>/dev/null
+"$S/instr" -repo /repo -out "$S/ov" -pkgs rtcm/handler,rtcm/pushback,file_handler,apps/appcore,apps/proxy/circular_queue,jsonconfig -time file_handler,jsonconfig -yield apps/proxy/circular_queue 2>/dev/null
 go build -overlay "$S/ov/overlay.json" -o "$S/mclib" ./cmd/mclib
-"$S/instr" -repo /repo -out "$S/ov2" -pkgs rtcm/handler,rtcm/pushback,file_handler,apps/appcore,apps/rtcmfilter,apps/displayrtcm3,apps/rtcmlogger,apps/proxy,apps/proxy/reportfeed,apps/proxy/circular_queue \
+"$S/instr" -repo /repo -out "$S/ov2" -pkgs rtcm/handler,rtcm/pushback,file_handler,apps/appcore,jsonconfig,apps/rtcmfilter,apps/displayrtcm3,apps/rtcmlogger,apps/proxy,apps/proxy/reportfeed,apps/proxy/circular_queue \
    -time file_handler,apps/proxy,apps/proxy/reportfeed -dailysink apps/rtcmfilter,apps/rtcmlogger -stdio apps/rtcmlogger \
    -add /repo/apps/rtcmfilter/verif_harness_test.go=$PWD/harness/rtcmfilter/harness_test.go \
    -add /repo/apps/displayrtcm3/verif_harness_test.go=$PWD/harness/displayrtcm3/harness_test.go \
@@ -17,6 +18,7 @@ go build -overlay "$S/ov/overlay.json" -o "$S/mclib" ./cmd/mclib
    -add /repo/apps/proxy/verif_harness_test.go=$PWD/harness/proxy/harness_test.go 2>/dev/null
 for a in rtcmfilter displayrtcm3 rtcmlogger proxy; do
   go test -c -vet=off -overlay "$S/ov2/overlay.json" -o "$S/$a.test" github.com/goblimey/go-ntrip/apps/$a
+  go build -o "$S/$a.real" github.com/goblimey/go-ntrip/apps/$a   # the shipped binary, for the end-to-end cases
 done
 go build -race -o "$S/auxrace" ./cmd/auxrace
 go test -count=1 ./mc/mcrt/ > "$S/mcrt.log" 2>&1 || { cat "$S/mcrt.log"; echo "scheduler self-tests failed"; exit 1; }
